@@ -48,6 +48,27 @@ CHECKS.update({
     ),
 })
 
+CHECKS.update({
+    "C04": (
+        "generated expressions with variables; oracle = jets with the variable node's value perturbed",
+        "Hypothesis-generated expressions over 1-3 (nested, tensor-valued, repeatedly used) variables; diff w.r.t. a "
+        "variable or coefficient, optionally repeated; every component of expand_derivatives(diff(f, v)) is compared "
+        "with the perturbation coefficient computed by Taylor arithmetic with only the variable's value perturbed; "
+        "shape f.shape + v.shape and distinctness of variables are checked.",
+        "Trusts the reference interpreter; real smooth data; exceptions in the generated grammar are violations.",
+        "4/C04",
+    ),
+    "C06": (
+        "operator-stratified generated operands; oracle = numpy linear algebra semantics vs lowered index notation",
+        "Every compound operator and every helper of ufl.compound_expressions is drawn as focus with operands of all "
+        "admissible shapes (1-4, rectangular, rank 3, free-index operands, nested compounds, list tensors with zeros), "
+        "real and complex; the lowered expression's value is compared with numpy semantics (det/inv/pinv/einsum with "
+        "the documented conjugation); compound differential operators are compared through jets of the unlowered node.",
+        "Trusts numpy.linalg and the interpreter's compound semantics; matrices with condition > 1e4 discarded.",
+        "4/C06",
+    ),
+})
+
 NOT_YET = {}
 
 
